@@ -16,6 +16,7 @@ chains, Boyer-Moore tables, the case-insensitive prefix, multi-prefix search, th
 prefix (not used by the engine), and the substitution of a leading positive lookahead's facts.
 -/
 import RegexVerif.Lemmas.Facts
+import RegexVerif.Model.Scan
 
 namespace RegexVerif.Props.C04
 open RegexVerif RegexVerif.Spec RegexVerif.Facts
@@ -170,6 +171,26 @@ theorem find_prefix (e : Env) (utf8 : Nat → List Nat) (p : Pat) (start : Nat) 
   have := leadingPrefix_sound e utf8 p _ y hy
   simpa [Nat.min_eq_left h2] using this
 
+/-- **`MinRequiredLength` as the scan loop consumes it**: an attempt can only succeed where at least
+    `minLen p` characters remain in the direction of the scan — to the right of the attempt position
+    left-to-right, to its left right-to-left. -/
+theorem minLen_remaining (e : Env) (p : Pat) (rtl : Bool) (i : Nat) (hi : i ≤ e.n) (st : St)
+    (h : attempt e p rtl i = some st) : if rtl then minLen p ≤ i else minLen p ≤ e.n - i := by
+  obtain ⟨y, hy, _, _⟩ := attempt_success e p rtl i st h
+  have h1 := minLen_span e p rtl _ y hy
+  have h2 := m_fwd e p rtl _ y hy
+  have h3 := (m_wf e p rtl { pos := i, caps := [] } ⟨hi, by simp⟩ y hy).1
+  cases rtl <;> simp [span, Fwd] at h1 h2 ⊢ <;> omega
+
+/-- … which is the hypothesis `MinLenSound` under which the scan-loop theorems of C03 are proved, here
+    discharged for the specification's attempt (reported as group 0's index and length) -/
+theorem minLenSound_spec (e : Env) (p : Pat) (rtl : Bool) :
+    Scan.MinLenSound rtl e.n (minLen p) (fun i => (attempt e p rtl i).bind (fun st => lastCap st.caps 0)) := by
+  intro pos i l hpos hat
+  cases hst : attempt e p rtl pos with
+  | none => simp [hst] at hat
+  | some st => exact minLen_remaining e p rtl pos hpos st hst
+
 /-! ### non-vacuity: concrete instances -/
 
 /-- `^ab{1,3}(?:c|cd)$` (multiline) on "x\nabbc": Concatenate(Bol, One a, Oneloop b{1,3},
@@ -196,6 +217,7 @@ example : anchorHolds demoEnv .eol 6 = true :=
 example : (([97, 98, 98, 99] : List Nat).flatMap utf8enc).take 2 = [97, 98] :=
   leadingPrefix_sound demoEnv utf8enc demoPat demoStart demoEnd demo_success
 example : asciiOnly demoPat = true := by decide
+example : 3 ≤ demoEnv.n - 2 := minLen_remaining demoEnv demoPat false 2 (by decide) _ (by decide : attempt demoEnv demoPat false 2 = some { pos := 6, caps := [(0, 2, 4)] })
 
 /-- right-to-left: `\bab$` matched leftwards from 5 on "x ab\n": the pattern-order LAST child leads -/
 def demoRtl : Pat := .seq (.anchor .boundary) (.seq (.chr (.one 97 false)) (.seq (.chr (.one 98 false)) (.anchor .eol)))
